@@ -88,7 +88,7 @@ CHECKS["C07"] = {
     "engine": "storesched",
     "level": "exploration",
     "technique": "model-based stateful property testing (rapid) under virtual time + schedule-controlled interleavings of datastore calls with the documented exception implemented literally",
-    "level_text": "Generated add/query/clock/GC/restart/close histories run against the real ProviderManager (tiny LRU, journaling datastore, synctest clock) and are compared with a "
+    "level_text": "Generated add/query/clock/GC/restart/close histories (some additions refused by the datastore) run against the real ProviderManager (tiny LRU, journaling datastore, synctest clock) and are compared with a "
                   "(key,peer)->last-addition model at every read; a second part interleaves adders, readers, the expiry sweep and Close at datastore-call granularity under a drawn schedule. "
                   "Exploration: histories and schedules are sampled.",
     "level_note": "The validity boundary itself is accepted either way; interleavings are explored at datastore calls and mutex acquisitions; the journaling in-memory datastore "
@@ -315,8 +315,8 @@ CHECKS["C17"] = {
     "engine": "sweepsim",
     "level": "exploration",
     "technique": "stateful property-based testing (rapid) of the sweeping provider over a simulated swarm under synctest virtual time across several reprovide cycles; history oracle over the ADD_PROVIDER log with a brute-force nearest-r reference",
-    "level_text": "Generated swarms (constructed clusters), key sets, worker configurations and histories (start/stop/provide-once, churn, outages, restarts, address changes) run against the real SweepingProvider for 1.2-3.3 reprovide intervals of virtual time; "
-                  "the oracle reads the ADD_PROVIDER log and checks recipients, completeness with respect to the brute-force r nearest reachable peers of the swarm at send time, the reprovide bound and StopProviding; a model-based part checks the buffered wrapper. Exploration.",
+    "level_text": "Generated swarms (constructed clusters), key sets, worker configurations and histories (start/stop/provide-once, churn, outages, restarts, address changes between and in the middle of drains) run against the real SweepingProvider for 1.2-3.3 reprovide intervals of virtual time; "
+                  "the oracle reads the ADD_PROVIDER log and checks recipients, completeness with respect to the brute-force r nearest reachable peers of the swarm at send time, the reprovide bound and StopProviding; a model-based part checks the buffered wrapper, also across a Close with operations queued and a reopen over the same datastore. Exploration.",
     "level_note": "Three regimes are generated and reported separately (bucket = r; bucket > r; swarm < r); routers that return only 1-2 peers are outside the documented operating assumptions and not generated; closest-peers lookups cost 1-150 ms and failing lookups/sends 1 s of virtual time (never 0: a real clock cannot make 'now' coincide with a schedule slot to the nanosecond); "
                   "the provider's own random draws (prefix-length sampling) are not controlled: verdicts are stated so that they do not depend on them, except for the two listed findings, which are identified by their circumstances.",
     "parts": [
